@@ -7,5 +7,6 @@ for f in coq/_CoqProject coq/theories/Corr.v MANIFEST.json; do
   git checkout --ours "$f" 2>/dev/null
 done
 python3 lib/gen.py --manifest
-git status --short | grep -E "^(UU|AA|DU|UD)" && { echo "UNRESOLVED CONFLICTS"; exit 1; }
-git add -A && git commit -qm "merge $1" && echo "merged $1"
+git add -A
+if git grep -n -E '^(<<<<<<<|>>>>>>>) ' -- . ':!lib/merge_branch.sh' | head -5 | grep -q .; then echo "CONFLICT MARKERS LEFT"; exit 1; fi
+git commit -qm "merge $1" && echo "merged $1"
